@@ -724,3 +724,38 @@ func indexedSeq(m *ssa.MakeSlice) ([]ssa.Value, bool) {
 	}
 	return append(parts, tail), true
 }
+
+// pathTakesNonNilEdge: on the path, a nil test of a value that — with merged variables resolved by the edges the path took — is an
+// error accepted by isErr takes the "not nil" edge. (pathEstablishes with a strict errNil/NonNil fact cannot say this for a variable
+// that merges the errors of several calls: whether the merged value is this call's error depends on the path.)
+func pathTakesNonNilEdge(pa core.Path, isErr func(ssa.Value) bool) bool {
+	for k := 0; k+1 < len(pa); k++ {
+		b := pa[k]
+		iff, ok := b.Instrs[len(b.Instrs)-1].(*ssa.If)
+		if !ok {
+			continue
+		}
+		bin, ok := iff.Cond.(*ssa.BinOp)
+		if !ok || (bin.Op != token.NEQ && bin.Op != token.EQL) {
+			continue
+		}
+		var v ssa.Value
+		switch {
+		case core.IsNilConst(bin.Y):
+			v = bin.X
+		case core.IsNilConst(bin.X):
+			v = bin.Y
+		default:
+			continue
+		}
+		v = pa.ResolveAt(k, v)
+		if v == nil || !isErr(v) {
+			continue
+		}
+		tookTrue := pa[k+1] == b.Succs[0]
+		if (bin.Op == token.NEQ && tookTrue) || (bin.Op == token.EQL && !tookTrue) {
+			return true
+		}
+	}
+	return false
+}
